@@ -25,6 +25,12 @@ def build(tier):
         for pi, pat in enumerate(all_patterns(7)):
             if pi % 3 == seed % 3:
                 qs.append(ldpc_cycle("C01", cfg, pat, 8, int(pi % 2 == 0), 1, pi % 5, EN))
+    # larger LDPC codes: every received set for which the Gaussian elimination must succeed (chosen with the
+    # reference model), index order through both APIs -- the decoded values then come out of the ML path
+    for cfg in ([(4, 4, 3, 1), (4, 5, 4, 1)] if tier == "quick" else [(4, 4, 3, 1), (4, 5, 4, 1), (5, 4, 3, 7), (5, 5, 4, 3)]):
+        for pi, pat in enumerate(ldpc_classes(cfg)["ml-ok"]):
+            for api in ((pi % 2,) if tier == "quick" else (0, 1)):
+                qs.append(ldpc_cycle("C01", cfg, pat, (1, 9)[pi % 2], api, 1, 0, EN))
     # ---- Reed-Solomon GF(2^m): all 2^n received sets
     rs = [(4, 2, 2, "full"), (4, 3, 2, "one"), (8, 2, 2, "full"), (8, 2, 3, "one")] if tier == "quick" else \
          [(4, 2, 2, "full"), (4, 3, 3, "full"), (4, 4, 3, "one"), (4, 5, 3, "one"), (4, 2, 6, "one"), (4, 6, 2, "one"),
